@@ -1,15 +1,21 @@
-(* C02 — State machine safety (stream part, one server).
-   Statements only; proofs in Proofs/RecoverProofs.v.
-   PARTIAL: what is proved is the per-server half: whatever commit index is handed to processLogs,
-   the FSM receives exactly log(lastApplied, index] in increasing index order, each entry once, and
-   a restore (InstallSnapshot / start-up) sets the FSM to the snapshot content and lastApplied to
-   the snapshot index, so the next entry handed over is snapshot+1.  That every server's log agrees
-   on committed indices (C03/C04 globally) is checked on real cluster histories by the monitors
-   (fsm-entries-differ-across-servers, uncommitted-entry-applied, ...), not proved for all runs. *)
+(* C02 — State machine safety.
+   Statements only; proofs in Proofs/RecoverProofs.v (one server) and Proofs/ClusterCommit*.v (all
+   runs of the cluster with commitment).
+   ONE SERVER: whatever commit index is handed to processLogs, the FSM receives exactly
+   log(lastApplied, index] in increasing index order, each entry once, and a restore
+   (InstallSnapshot / start-up) sets the FSM to the snapshot content and lastApplied to the snapshot
+   index, so the next entry handed over is snapshot+1.
+   ALL SERVERS, ALL RUNS (C02_state_machine_safety_all_runs): in every reachable state of the cluster
+   transition system with commitment (Model/ClusterCommit.v) what two running servers know to be
+   committed is the same history, and applied <= commit <= last index at every server - so, with the
+   one-server half, every FSM is handed the same entries in the same order and nothing uncommitted.
+   PARTIAL: runs without snapshots, InstallSnapshot, membership changes and RestoreCommittedLogs
+   (with InstallSnapshot the statement is false on this code: known finding F3-ii); those clauses
+   are checked on real cluster histories by the monitors. *)
 From Coq Require Import List NArith.
 From stdpp Require Import gmap.
-From RaftModel Require Import Base Config Node.
-From RaftProofs Require Import RecoverProofs.
+From RaftModel Require Import Base Config Node NodeCodec Cluster ClusterLog ClusterCommit.
+From RaftProofs Require Import RecoverProofs ClusterCommitSpec ClusterCommitMain ClusterCommitInit ClusterCommitCex.
 Open Scope N_scope.
 
 Theorem C02_fsm_stream_in_order : forall s idx s' tr,
@@ -48,3 +54,45 @@ Example C02_nontrivial :
   | None => False
   end.
 Proof. vm_compute. repeat split. Qed.
+
+
+(* ================= ALL SERVERS, ALL RUNS (Model/ClusterCommit.v) =================
+   For EVERY run of the cluster with commitment - elections, dispatchLogs, replicateTo sending from
+   each follower's nextIndex (any lastIndex it may have read), requests executed by the followers'
+   handlers late, repeatedly, out of order or never, answers returning to the blocked call or lost,
+   commitment.match, the leader loop advancing the commit index, restarts, store failures
+   (DeleteRange included) and crash cuts inside every handler - from a freshly booted cluster
+   (cinit_ok: Proofs/ClusterCommitSpec.v) and as long as no LogConfiguration entry is proposed and
+   vote requests are those real candidates sent (label_ok):
+     - committed_agree: two running servers hold the SAME entry at every index both know committed;
+     - applied_within_commit: lastApplied <= commitIndex <= lastIndex at every running server.
+   This holds for the follower rule min(LeaderCommit, index of the last entry of the request) (fix:
+   a641560).  For the pinned rule min(LeaderCommit, own last index) the prover produced
+   counterexamples, replayed on real servers (finding F11). *)
+Theorem C02_state_machine_safety_all_runs : forall cfg g0 ls g,
+  cinit_ok cfg g0 -> Forall label_ok ls -> crun false [cfg] g0 ls = Some g ->
+  committed_agree g /\ applied_within_commit g.
+Proof. intros cfg g0 ls g H0 Hl Hr. destruct (state_machine_safety cfg g0 ls g H0 Hl Hr) as (A & _ & B). split; assumption. Qed.
+Print Assumptions C02_state_machine_safety_all_runs.
+
+(* non-vacuity: every state the correspondence driver (component 102) starts from is such an initial state *)
+Theorem C02_driver_states_are_initial : forall n extras,
+  cinit_ok (mk_cfg n)
+    (mkCG (mkLG (mkG (map (fun p => mk_node (mk_cfg n) (N.of_nat (fst p)) (snd p)) (combine (seq 1 n) extras)) [] [] []) []) [] [] []).
+Proof. exact mk_nodes_cinit. Qed.
+
+(* the no-stray-vote condition is needed: a forged RequestVote (LeadershipTransfer set, made-up last
+   log) obtains a vote, the real request is then re-granted without a log check *)
+Theorem C02_forged_vote_request_refutes_safety : exists cfg g0 ls g,
+  cinit_ok cfg g0 /\ Forall label_no_config ls /\ crun false [cfg] g0 ls = Some g /\
+  ~ committed_agree g /\ ~ leader_complete g.
+Proof. exact forged_vote_refutes_safety. Qed.
+
+(* regression of finding F11: the two runs that broke the pinned follower rule (a lastIndex read before
+   the leader's no-op; five failing DeleteRange calls) now end without a violation *)
+Example C02_F11_runs_now_safe :
+  (exists g, crun false [mk_cfg 3] cex_g0 cexB_labels = Some g /\
+     (no_violation g [1; 2; 3] [1; 2; 3; 4] && (commit_of g 1 =? 4) && (commit_of g 3 =? 2)) = true) /\
+  (exists g, crun false [mk_cfg 3] cexC_g0 cexC_labels = Some g /\
+     (no_violation g [1; 2; 3] [1; 2; 3; 4; 5; 6] && (commit_of g 1 =? 6) && (commit_of g 3 =? 5)) = true).
+Proof. split; [exact old_rule_cexB_now_safe | exact old_rule_cexC_now_safe]. Qed.
